@@ -18,6 +18,8 @@ def r7(ctx):
 
 
 RULES = {
+    # lookup on an index map and through the DecodedMap dispatch: section by greatest_lower_bound, relative position, same query
+    "C04.R8": lambda ctx: __import__("rules.bldrules", fromlist=["x"]).index_lookup(ctx, "C04.R8"),
     "C04.RL": lambda ctx: __import__("rules.common", fromlist=["x"]).loop_exit_rule(ctx, "C04.RL", {'utils::greatest_lower_bound': 1}),
     "C04.R1": lambda ctx: typesrules.who_writes_tokens(ctx, "C04.R1"),
     "C04.R2": lambda ctx: typesrules.sort_after_write(ctx, "C04.R2"),
